@@ -684,6 +684,17 @@ func (p *pushProp) run(rc *RunCtx, pp *PushParams, info *RunInfo) *Verdict {
 			info.Probes["ingest_leftovers"] += len(ents)
 		}
 	}
+	if isOCI && strings.Count(outcome, "S") >= 2 {
+		seenD := map[string]bool{}
+		for i := range pp.Pushers {
+			if errs[i] == nil {
+				if seenD[descs[i].Digest.String()] {
+					info.Probes["two_pushes_of_one_blob_both_succeeded"]++
+				}
+				seenD[descs[i].Digest.String()] = true
+			}
+		}
+	}
 	info.StateHash = strHash(pp.Target + outcome)
 	info.CaseHash = simrt.Mix(info.CaseHash, info.StateHash)
 	info.Sample = map[string]any{"target": pp.Target, "pushers": pp.Pushers, "outcome": outcome}
